@@ -56,6 +56,13 @@ def gen_history(rng, maxlen):
             if rng.chance(1, 3):
                 # a reaction with a delayed part (fixed delay given by a named parameter)
                 dp = [rng.choice(SPECIES) for _ in range(rng.randint(1, 2))]
+                if len(r) >= 2:
+                    # a reaction of order >= 2 that returns more molecules than it consumes blows up in finite time (the
+                    # simulation never returns): outside the property's bounded models
+                    p = p[:max(0, len(r) - 1)]
+                    dp = dp[:max(1, len(r) - len(p))][:1] if len(p) + 1 <= len(r) else []
+                    if not dp:
+                        p, dp = p[:len(r) - 1], [rng.choice(SPECIES)]
                 ops.append(["createDelayed", r, p, k, dp, rng.choice(PARAMS)])
                 learn(r + p + dp)
             else:
